@@ -623,7 +623,7 @@ def run(ctx):
     out = common.Outcome()
     out.proof = common.proof_status(FAMILY, PROPFILE)
     rng = ctx.rng
-    n_term, n_hist, n_join = ctx.scale(700, 9000), ctx.scale(700, 12000), ctx.scale(300, 4000)
+    n_term, n_hist, n_join = ctx.scale(2500, 20000), ctx.scale(2500, 30000), ctx.scale(1000, 8000)
     items = list(FIXED_CASES) + corpus_cases()
     for s in FIXED_MALFORMED + ODD_NUMS + [f % 'a*b' for f in FORMS]:
         items.append({'kind': 'term', 'case': {'s': s, 'blob': False}})
